@@ -40,7 +40,7 @@ struct lysp_ctx;
             err_cmd; \
             const struct ly_err_item *__eitem = ly_err_last(((struct lyd_ctx *)lydctx)->data_ctx->ctx); \
             if ((r != LY_EVALID) || !lydctx || !(lydctx->val_opts & LYD_VALIDATE_MULTI_ERROR) || \
-                    (__eitem->vecode == LYVE_SYNTAX)) { \
+                    !__eitem || (__eitem->vecode == LYVE_SYNTAX)) { \
                 goto label; \
             } \
         }
